@@ -40,8 +40,15 @@ class Scenario:
             dmod._reserved_bytes.clear()
         self.un = upd.UpdateableNode(self.q, db.StorageNode.get(id=self.dst.id))
         self.dmod = dmod
+        # an I/O class that cannot always tell the free space (a quota query that fails): bytes_avail() answers None
+        self.unknown = self.avail is None and rng.random() < 0.5
+        self.patch_unknown()
         self.nfile = 0
         self.live = []           # (task id, how it will end)
+
+    def patch_unknown(self):
+        if self.unknown:
+            self.un.io.bytes_avail = lambda fast=False: None
 
     def reserved(self):
         with self.dmod._mutex:
@@ -97,6 +104,7 @@ def run(ctx):
                         import alpenhorn.daemon.update as upd_
                         db.StorageNode.update(io_config='{"reinit": %d}' % ev).where(db.StorageNode.id == sc.dst.id).execute()
                         sc.un.reinit(db.StorageNode.get(id=sc.dst.id))
+                        sc.patch_unknown()
                         ctx.count("reinit")
                         if sc.reserved() != before_r:
                             ctx.violation("reinit-forgets", f"re-creating the node's I/O instance changed the reserved total from {before_r} to "
